@@ -1022,7 +1022,7 @@ def corpus():
     import decimal
     out = []
     W = [
-        ('dt', datetime.date(2020, 1, 2)),                     # finding: stored, unreadable
+        ('dt', datetime.date(2020, 1, 2)),                     # fixed d26c1c0: was stored, unreadable
         ('dt', datetime.time(1, 2, 3)),
         ('d', datetime.time(1, 2, 3)),
         ('t', datetime.date(2020, 1, 2)),
@@ -1031,8 +1031,8 @@ def corpus():
         ('dt', datetime.datetime(2020, 1, 2, 3, 4, 5, 6, datetime.timezone.utc)),   # finding: tzinfo dropped
         ('t', datetime.time(1, 2, 3, 4, datetime.timezone.utc)),
         ('i', 2 ** 63 + 1),                                    # finding: beyond int64 -> REAL
-        ('f', 2 ** 53 + 1),                                    # finding: int in a float column
-        ('dec', decimal.Decimal('100')),                       # finding: integral decimal read back as int
+        ('f', 2 ** 53 + 1),                                    # fixed 696f023: int in a float column
+        ('dec', decimal.Decimal('100')),                       # fixed e4e0676: integral decimal read back as int
         ('dec20', decimal.Decimal('123456789012345678.91')),   # finding: decimal stored as REAL
         ('dec', 2 ** 70),
         ('s', "it's \\ % _ \n"), ('s', ''), ('bl', b''), ('bl', b'\x00\xff'), ('js', {'a': [1, 2.5, None, True, 'x']}),
